@@ -17,11 +17,11 @@ from vlib.run import Result
 
 LEVEL = "exploration"
 RULE = (
-    "a history = table size 0..4, initial NCP table content (each group at most once, some slots free), protocol version "
+    "a history = table size 0..4, initial NCP table content (each live group at most once, some slots free - cleared entries may still carry any group id, also one that is live elsewhere), protocol version "
     "from {4, 8, 13, 14}, then up to 12 operations over groups {1..5}: startup(member_of), subscribe(g), unsubscribe(g), "
     "each table write answered ok / rejected with a defined or undefined status / not answered (command timeout). "
     "Exhaustive part: every operation sequence of length <= L (quick 3, thorough 4) over groups {1,2,3} x 3 answers for "
-    "sizes 0..3 with 2 initial contents. Non-trivial = a rejected or timed-out write is followed by a later subscribe; "
+    "sizes 0..3 with up to 3 initial contents; a 'restart' operation (fresh Multicast object re-scanning the table) may occur anywhere. Non-trivial = a rejected or timed-out write is followed by a later subscribe; "
     "distinct by history."
 )
 ASSUMPTIONS = [
@@ -106,6 +106,15 @@ async def scenario(loop, plan, r):
         where = f"op {n} {op}"
         free0 = len(mc._available)
         w0 = sim.writes
+        if kind == "restart":
+            # the host process restarts: a fresh Multicast object scans the table the earlier history left in the NCP
+            mc = Multicast(ezsp)
+            await mc._initialize()
+            r.cls("restart")
+            invariants(mc, sim, r, where)
+            if r.violations:
+                return
+            continue
         if kind == "startup":
             groups, answers = op[1], op[2]
             sim.answers = [a if a in ("ok", "timeout") else ["rej", a[1]] for a in answers]
@@ -197,12 +206,15 @@ def plans(draw):
     size = draw(st.integers(0, 4))
     groups = draw(st.lists(st.integers(1, 5), max_size=size, unique=True))
     table = [(g, draw(st.sampled_from([1, 1, 2]))) for g in groups]
-    table += [(draw(st.sampled_from([0, 0, 7])), 0) for _ in range(size - len(table))]
+    # cleared entries keep whatever group id was last written there (bellows itself clears with endpoint 0 and the old id)
+    table += [(draw(st.sampled_from([0, 0, 7, 1, 2, 3, 4, 5])), 0) for _ in range(size - len(table))]
     table = draw(st.permutations(table))
     ops = []
     for _ in range(draw(st.integers(1, 12))):
-        kind = draw(st.sampled_from(["sub", "sub", "unsub", "unsub", "startup"]))
-        if kind == "startup":
+        kind = draw(st.sampled_from(["sub", "sub", "sub", "unsub", "unsub", "unsub", "startup", "restart"]))
+        if kind == "restart":
+            ops.append(["restart"])
+        elif kind == "startup":
             gs = draw(st.lists(st.integers(1, 5), max_size=4, unique=True))
             ops.append(["startup", gs, draw(st.lists(answer, max_size=4))])
         else:
@@ -214,7 +226,7 @@ def _worker(ctx, n):
     ctx.search(plans(), check, max_examples=n)
 
 
-SYMS = [[k, g, a] for k in ("sub", "unsub") for g in (1, 2, 3) for a in ("ok", ["rej", "ERR"], "timeout")]
+SYMS = [[k, g, a] for k in ("sub", "unsub") for g in (1, 2, 3) for a in ("ok", ["rej", "ERR"], "timeout")] + [["restart"]]
 
 
 def _worker_exh(ctx, job):
@@ -224,6 +236,8 @@ def _worker_exh(ctx, job):
         inits.append((size, [[0, 0]] * size))
         if size >= 1:
             inits.append((size, [[2, 1]] + [[0, 0]] * (size - 1)))
+        if size >= 2:
+            inits.append((size, [[2, 0], [2, 1]] + [[0, 0]] * (size - 2)))  # stale id in a cleared entry below the live one
     for size, table in inits:
         for n in range(1, L + 1):
             for first in firsts:
@@ -238,5 +252,5 @@ def run(ctx):
     L = 3 if quick else 4
     jobs = [(L, [f], v) for f in range(len(SYMS)) for v in ((8,) if quick else (4, 8, 14))]
     ctx.parallel(_worker_exh, jobs)
-    ctx.exhaustive[f"all operation sequences up to length {L} over 3 groups x 3 answers, sizes 0..3, 2 initial contents"] = True
+    ctx.exhaustive[f"all operation sequences up to length {L} over 3 groups x 3 answers + restart, sizes 0..3, up to 3 initial contents"] = True
     ctx.parallel(_worker, [120] * 16 if quick else [3000] * 16)
